@@ -744,12 +744,12 @@ var c15Go = sync.OnceValue(func() (g struct {
 	if f := strings.Fields(string(out)); err == nil && len(f) == 2 && f[1] == runtime.Version() {
 		if _, err := os.Stat(filepath.Join(f[0], "bin", "go")); err == nil {
 			g.bin = filepath.Join(f[0], "bin", "go")
-			g.env = append(env, "PATH="+filepath.Join(f[0], "bin")+string(os.PathListSeparator)+os.Getenv("PATH"), "GOTOOLCHAIN=local", "GOWORK=off")
+			g.env = append(env, "PATH="+filepath.Join(f[0], "bin")+string(os.PathListSeparator)+os.Getenv("PATH"), "GOTOOLCHAIN=local", "GOWORK=off", "GOMAXPROCS=4")
 			return g
 		}
 	}
 	g.bin = "go"
-	g.env = append(env, "GOTOOLCHAIN="+runtime.Version(), "GOWORK=off")
+	g.env = append(env, "GOTOOLCHAIN="+runtime.Version(), "GOWORK=off", "GOMAXPROCS=4") // several workers run children side by side
 	return g
 })
 
@@ -1217,7 +1217,6 @@ func TestVerifC15(t *testing.T) {
 		return
 	}
 
-	res.SetBudget(vx.Budget(80*time.Second, 16*time.Minute))
 	t0 := time.Now()
 
 	// pass 1: count the space (cheap), per size
@@ -1239,9 +1238,9 @@ func TestVerifC15(t *testing.T) {
 		return
 	}
 
-	batchSize := 600
+	maxBatch := 600
 	if v, err := strconv.Atoi(os.Getenv("VERIF_C15_BATCH")); err == nil && v > 0 {
-		batchSize = v
+		maxBatch = v
 	}
 	workers := runtime.GOMAXPROCS(0) / 2
 	if workers < 2 {
@@ -1251,49 +1250,88 @@ func TestVerifC15(t *testing.T) {
 		workers = v
 	}
 	shardI, shardN := vx.Shard()
+	budget := vx.Budget(80*time.Second, 16*time.Minute)
 
+	// The enumeration is handed out in consecutive batches whose size adapts to the measured
+	// speed: a batch should not take longer than about a third of the remaining budget (the
+	// machine may be heavily loaded), and no batch is started that is unlikely to finish in time.
 	type batch struct {
 		id  int
 		fns []*c15Fn
 	}
-	batches := make(chan batch, 1)
+	specs := make(chan *c15Fn, 2048)
 	var genErr string
-	var dispatched atomic.Int64
+	stopGen := make(chan struct{})
 	go func() {
-		defer close(batches)
-		var cur []*c15Fn
-		id := 0
-		flush := func() bool {
-			if len(cur) == 0 {
-				return true
-			}
-			b := batch{id, cur}
-			cur = nil
-			id++
-			if (b.id % shardN) != shardI {
-				return true
-			}
-			if res.Expired() {
-				return false
-			}
-			batches <- b
-			dispatched.Add(int64(len(b.fns)))
-			return true
-		}
+		defer close(specs)
+		k := 0
 		c15Enumerate(bounds, func(sp c15Spec) bool {
+			k++
+			if (k-1)%shardN != shardI && shardN > 1 {
+				return true
+			}
 			fn, err := c15Compile(sp)
 			if err != nil {
 				genErr = err.Error()
 				return false
 			}
-			cur = append(cur, fn)
-			if len(cur) >= batchSize {
-				return flush()
+			select {
+			case specs <- fn:
+				return true
+			case <-stopGen:
+				return false
 			}
-			return true
 		})
-		flush()
 	}()
+	var nextMu sync.Mutex
+	nextID := 0
+	var secPerFn float64 // exponentially smoothed wall seconds per function (incl. the fixed cost per batch)
+	const fixedFns = 120  // a batch costs about as much as this many functions on top of its own
+	next := func() (batch, bool) {
+		nextMu.Lock()
+		defer nextMu.Unlock()
+		remaining := budget - time.Since(t0)
+		n := 150
+		if secPerFn > 0 {
+			n = int(remaining.Seconds()/3/secPerFn) - fixedFns
+			if n < 40 {
+				// not even a small batch is likely to finish inside the budget
+				if float64(40+fixedFns)*secPerFn > remaining.Seconds() {
+					return batch{}, false
+				}
+				n = 40
+			}
+		}
+		if n > maxBatch {
+			n = maxBatch
+		}
+		if remaining <= 0 {
+			return batch{}, false
+		}
+		var fns []*c15Fn
+		for len(fns) < n {
+			fn, ok := <-specs
+			if !ok {
+				break
+			}
+			fns = append(fns, fn)
+		}
+		if len(fns) == 0 {
+			return batch{}, false
+		}
+		nextID++
+		return batch{nextID - 1, fns}, true
+	}
+	done := func(n int, d time.Duration) {
+		nextMu.Lock()
+		r := d.Seconds() / float64(n+fixedFns) // wall seconds per function of one worker
+		if secPerFn == 0 {
+			secPerFn = r
+		} else {
+			secPerFn = 0.5*secPerFn + 0.5*r
+		}
+		nextMu.Unlock()
+	}
 
 	var mu sync.Mutex
 	var allFinds []c15Finding
@@ -1306,7 +1344,12 @@ func TestVerifC15(t *testing.T) {
 		go func(w int) {
 			defer wg.Done()
 			cache := filepath.Join(scratch, fmt.Sprintf("cache%d", w))
-			for b := range batches {
+			for {
+				b, ok := next()
+				if !ok {
+					return
+				}
+				bt0 := time.Now()
 				// the pool functions are judged with the first batch only
 				var work func(fns []*c15Fn, depth int)
 				work = func(fns []*c15Fn, depth int) {
@@ -1336,10 +1379,14 @@ func TestVerifC15(t *testing.T) {
 					mu.Unlock()
 				}
 				work(b.fns, 0)
+				done(len(b.fns), time.Since(bt0))
 			}
 		}(w)
 	}
 	wg.Wait()
+	close(stopGen)
+	for range specs {
+	}
 
 	res.Eval(st.functions)
 	res.States, res.Transitions, res.Validated = st.functions, st.executions, st.functions
@@ -1421,35 +1468,49 @@ func TestVerifC15(t *testing.T) {
 	}
 	res.Count("unasserted_disagreements_deferred_recover", int64(doubt))
 	res.Count("disagreements", int64(len(asserted)))
-	const maxConfirm = 24
-	if len(asserted) > maxConfirm {
-		res.Note("%d disagreements; the %d smallest are confirmed in isolation and reported", len(asserted), maxConfirm)
-		asserted = asserted[:maxConfirm]
+	// group by function; the functions with the smallest bodies are re-run in isolation (one module
+	// each, all in parallel: one round) and only what reproduces there is reported
+	maxConfirm := workers
+	var order []*c15Fn
+	byFn := map[*c15Fn][]c15Finding{}
+	for _, f := range asserted {
+		if _, ok := byFn[f.Fn]; !ok {
+			order = append(order, f.Fn)
+		}
+		byFn[f.Fn] = append(byFn[f.Fn], f)
+	}
+	res.Count("functions_with_disagreements", int64(len(order)))
+	if len(order) > maxConfirm {
+		var rest []string
+		for _, fn := range order[maxConfirm:] {
+			if len(rest) < 30 {
+				rest = append(rest, byFn[fn][0].Key)
+			}
+		}
+		res.Note("%d functions with disagreements; the %d smallest are confirmed in isolation and reported; first further keys: %s", len(order), maxConfirm, strings.Join(rest, "  "))
+		order = order[:maxConfirm]
 	}
 	var cwg sync.WaitGroup
-	sem := make(chan struct{}, workers)
-	for i, f := range asserted {
+	for i, fn := range order {
 		cwg.Add(1)
-		go func(i int, f c15Finding) {
+		go func(i int, fn *c15Fn) {
 			defer cwg.Done()
-			sem <- struct{}{}
-			defer func() { <-sem }()
 			var dummy c15Stats
 			dummy.byCat = map[string]int64{}
 			var dmu sync.Mutex
-			finds, infra, _ := c15Process(filepath.Join(scratch, fmt.Sprintf("confirm%d", i)), filepath.Join(scratch, fmt.Sprintf("ccache%d", i)), []*c15Fn{f.Fn}, false, &dummy, &dmu)
-			ok := false
+			finds, infra, _ := c15Process(filepath.Join(scratch, fmt.Sprintf("confirm%d", i)), filepath.Join(scratch, fmt.Sprintf("ccache%d", i)), []*c15Fn{fn}, false, &dummy, &dmu)
+			got := map[string]bool{}
 			for _, g := range finds {
-				if g.Key == f.Key {
-					ok = true
+				got[g.Key] = true
+			}
+			for _, f := range byFn[fn] {
+				if infra != "" || !got[f.Key] {
+					res.NotExhaustive("unstable: " + f.Key + " was not reproduced in isolation " + infra)
+					continue
 				}
+				res.Violate(f.Key, f.Msg, f.Case)
 			}
-			if infra != "" || !ok {
-				res.NotExhaustive("unstable: " + f.Key + " was not reproduced in isolation " + infra)
-				return
-			}
-			res.Violate(f.Key, f.Msg, f.Case)
-		}(i, f)
+		}(i, fn)
 	}
 	cwg.Wait()
 	t.Logf("C15: %d/%d functions, %d executions, %d non-trivial, %d disagreements, cpu analysis %.1fs build %.1fs run %.1fs, wall %v",
